@@ -1,0 +1,69 @@
+//go:build verif
+
+// Machine-checked contracts for package internal (comment-only file; it is
+// compiled only under the build tag "verif" and contains no code).
+// Consumed by /verif/govc: requires/ensures/assigns clauses in a Gobra-like
+// comment syntax, keyed by function name.
+package internal
+
+//@ func (*Stack).Len
+//@ prop C16
+//@ readonly
+//@ ensures result == len(p.data)
+
+//@ func (*Stack).Push
+//@ prop C16
+//@ assigns p.data, elems(p.data)
+//@ ensures len(p.data) == old(len(p.data)) + 1
+//@ ensures p.data[len(p.data)-1] == v
+//@ ensures forall(i, 0, old(len(p.data)), p.data[i] == old(p.data[i]))
+
+//@ func (*Stack).Pop
+//@ prop C16
+//@ requires len(p.data) >= 1
+//@ assigns p.data
+//@ ensures len(p.data) == old(len(p.data)) - 1
+//@ ensures result == old(p.data[len(p.data)-1])
+//@ ensures forall(i, 0, len(p.data), p.data[i] == old(p.data[i]))
+
+//@ func (*Stack).PopN
+//@ prop C16
+//@ requires 0 <= n && n <= len(p.data)
+//@ assigns p.data
+//@ ensures len(p.data) == old(len(p.data)) - n
+//@ ensures forall(i, 0, len(p.data), p.data[i] == old(p.data[i]))
+
+//@ func (*Stack).SetLen
+//@ prop C16
+//@ requires 0 <= base && base <= len(p.data)
+//@ assigns p.data
+//@ ensures len(p.data) == base
+//@ ensures forall(i, 0, base, p.data[i] == old(p.data[i]))
+
+//@ func (*Stack).Get
+//@ prop C16
+//@ readonly
+//@ requires 0 - len(p.data) <= idx && idx < 0
+//@ ensures result == p.data[len(p.data)+idx]
+
+//@ func (*Stack).Set
+//@ prop C16
+//@ requires 0 - len(p.data) <= idx && idx < 0
+//@ assigns elems(p.data)
+//@ ensures p.data[len(p.data)+idx] == v
+//@ ensures forall(i, 0, len(p.data), imp(i != len(p.data)+idx, p.data[i] == old(p.data[i])))
+
+//@ func (*Stack).GetArgs
+//@ prop C16
+//@ readonly
+//@ requires 0 <= arity && arity <= len(p.data)
+//@ ensures len(result) == arity
+//@ ensures forall(i, 0, arity, result[i] == p.data[len(p.data)-arity+i])
+
+//@ func (*Stack).Ret
+//@ prop C16
+//@ requires 0 <= arity && arity <= len(p.data)
+//@ assigns p.data, elems(p.data)
+//@ ensures len(p.data) == old(len(p.data)) - arity + len(results)
+//@ ensures forall(i, 0, old(len(p.data)) - arity, p.data[i] == old(p.data[i]))
+//@ ensures forall(i, 0, len(results), p.data[old(len(p.data)) - arity + i] == old(results[i]))
